@@ -159,7 +159,7 @@ func freshState(c pwCluster) glxState {
 
 func c15EventStates(tier string) []c15State {
 	podSets := [][]string{{"web", "db", "cli2"}, {"web", "db", "cli2", "cli-pending"}, {"web", "db", "cli2", "cli-ready"}, {"web-new", "db", "cli2"}, {"web", "db-plain", "cli2"}, {"web", "db"}}
-	pols := []string{"in-podsel", "in-ipblock", "eg-podsel-port", "in-two-peers", "in-denyall", "in-ipblock@wide"}
+	pols := []string{"in-podsel", "in-ipblock", "eg-podsel-port", "in-two-peers", "in-denyall", "in-ipblock@wide", "in-both-types", "in-both-types@ingress-only"}
 	if tier == "thorough" {
 		pols = append(pols, "both", "in-nssel-port", "eg-ipblock", "eg-ipblock@wide")
 	}
@@ -168,7 +168,7 @@ func c15EventStates(tier string) []c15State {
 	for i := range pols {
 		polSets = append(polSets, []string{pols[i]})
 		for j := i + 1; j < len(pols); j++ {
-			if strings.TrimSuffix(pols[i], "@wide") == strings.TrimSuffix(pols[j], "@wide") {
+			if strings.SplitN(pols[i], "@", 2)[0] == strings.SplitN(pols[j], "@", 2)[0] {
 				continue // two versions of the same object cannot coexist
 			}
 			polSets = append(polSets, []string{pols[i], pols[j]})
